@@ -153,6 +153,7 @@ func checkC05(cx *Ctx, r *Report) {
 	// storage is asked with the request's context (which carries the issuer / tenant in effect): keys, providers and
 	// users are those of this request
 	cx.checkStorageContext(r)
+	cx.checkStorageIsTheApplications(r)
 	// request data must not be shared between requests through recycled buffers (R-POOL, see C15)
 	cx.checkPoolEscape(r)
 	r.Clauses = []string{
@@ -482,6 +483,7 @@ func checkC05(cx *Ctx, r *Report) {
 		}
 	}
 	cx.checkSigningCertsOnly(r)
+	cx.checkVerificationKeysFromGivenMetadata(r)
 	// signerPublicKey is written only by NewServiceProvider
 	for _, fn := range w.Funcs {
 		for _, st := range fx.info(fn).stores {
@@ -863,5 +865,44 @@ func (cx *Ctx) checkVerifiedOctetsOfParams(r *Report) {
 	}
 	if n == 0 {
 		r.Fail("R-VFG", "ValidateRedirectSignature:octets-of-params", w.FnPos(vr), "the redirect verifier is no longer called")
+	}
+}
+
+// checkVerificationKeysFromGivenMetadata (R-VFG): the certificates a request signature is verified against are parsed
+// from the metadata document the function was handed - the registration of the provider storage returned for this
+// request. A function that can answer from a package-level table, a sync.Map or a field of a long-lived object keeps
+// the keys of an earlier registration in force: after a key rotation, requests signed with the retired key are still
+// accepted and the new key is refused.
+func (cx *Ctx) checkVerificationKeysFromGivenMetadata(r *Report) {
+	w := cx.W
+	n := 0
+	for _, fn := range w.Funcs {
+		if fn.Parent() != nil || fn.Pkg == nil {
+			continue
+		}
+		res := fn.Signature.Results()
+		if res.Len() == 0 || res.At(0).Type().String() != "[]*crypto/x509.Certificate" {
+			continue
+		}
+		n++
+		key := w.FuncKey(fn)
+		vf := cx.newVFlow(key, fn)
+		ls := LabelSet{}
+		for _, ret := range returnsOf(fn) {
+			if len(ret.Results) > 0 {
+				ls.addAll(vf.Deep(vf.Labels(ret.Results[0])), 0)
+			}
+		}
+		var bad []string
+		for _, l := range ls.leaves() {
+			if strings.HasPrefix(l, "global:") || strings.HasPrefix(l, "ext:(*sync.") || strings.HasPrefix(l, "dyncall:") || strings.HasPrefix(l, "opaque:") {
+				bad = append(bad, l)
+			}
+		}
+		r.Check(len(bad) == 0, "R-VFG", "certs:"+key, w.FnPos(fn), "certificates come from the function's arguments: "+ls.String(),
+			"the certificates returned can come from "+strings.Join(bad, ", ")+" instead of the metadata handed to the function: keys of an earlier registration stay in force after the provider's keys were replaced")
+	}
+	if n == 0 {
+		r.Fail("R-VFG", "certs:#functions", "", "no function returning []*x509.Certificate found: the source of the verification keys cannot be established")
 	}
 }
